@@ -109,6 +109,22 @@ def run(pid, tier, seed, model_ok, replay):
                 if bad:
                     violations.append((name, a, f"no weigher configured but entries {bad} do not weigh 1"))
                     break
+        else:
+            # a configured weigher is the one that weighs: wherever nothing is queued, every resident entry's
+            # weight is the weigher's value for its key and current value (both build paths, custom hasher)
+            from trace import weigh
+            for l in ta:
+                op, out, st = C.split_line(l)
+                if st.startswith("dropped") or out.startswith("ERR"):
+                    continue
+                s = USnap(st) if cfg["kind"] == "unsync" else SSnap(st)
+                if cfg["kind"] == "sync" and not (op.startswith("S") and s.rq == 0 and s.wq == 0):
+                    continue
+                dist["weigher_snapshots"] = dist.get("weigher_snapshots", 0) + 1
+                bad = [(k, e["v"], e["w"]) for k, e in s.map.items() if e["w"] != weigh(cfg, k, e["v"])]
+                if bad:
+                    violations.append((name, a, f"weigher `{cfg['weigher']}` configured but (key, value, weight) {bad[:3]} disagree with it"))
+                    break
         if model_ok:
             d = C.first_disagreement(ta, model.get(name, []))
             if d:
